@@ -58,6 +58,9 @@ func (enc *Encoder) renderNode(indent int, node Node) error {
 // Encode will write the GEDCOM document to the Writer.
 func (enc *Encoder) Encode() (err error) {
 	err = enc.restoreOptionalBOM()
+	if err != nil {
+		return
+	}
 
 	for _, node := range enc.document.Nodes() {
 		err = enc.renderNode(enc.startIndent, node)
